@@ -3667,8 +3667,13 @@ def _fix_duplicate_regular_imports(source: str) -> str:
                     removals.add(node)
 
     if replacements or removals:
-        source = processing.alter_code(source, root, replacements=replacements, removals=removals)
-        return _fix_duplicate_regular_imports(source)
+        new_source = processing.alter_code(
+            source, root, replacements=replacements, removals=removals
+        )
+        if new_source == source:
+            return source  # Nothing could be applied, e.g. because of an ignore comment
+
+        return _fix_duplicate_regular_imports(new_source)
 
     return source
 
